@@ -3,6 +3,7 @@
 # property it was written against; prints one line per seed: failing-input / corr-only / MISSED
 cd /verif
 if [ -n "$(git -C /repo status --porcelain)" ]; then echo "/repo not clean"; exit 2; fi
+trap 'git -C /repo checkout -- . 2>/dev/null' EXIT INT TERM PIPE HUP
 for d in seeded/${1}*/; do
   name=$(basename "$d")
   prop=$(python3 -c "import json;print(json.load(open('$d/meta.json'))['breaks_property'])")
